@@ -1,0 +1,31 @@
+//go:build verif
+
+package schema
+
+import (
+	"reflect"
+
+	"github.com/getkin/kin-openapi/openapi3"
+)
+
+// VerifSchemaForType runs the generator of the given style for a run-time type: the same code
+// ConvertStructToOpenAPISchemaWithOptions[T] runs for a compile-time T.
+func VerifSchemaForType(t reflect.Type, options ConverterOptions) *openapi3.Schema {
+	switch options.RefStyle {
+	case RefStyleDefs:
+		gen := NewGenerator(options)
+		schema := gen.generateWithRefs(t)
+		if len(gen.defs) > 0 {
+			if schema.Extensions == nil {
+				schema.Extensions = make(map[string]interface{})
+			}
+			schema.Extensions["$defs"] = gen.defs
+		}
+		return schema
+	case RefStyleNested:
+		return convertWithNestedRefs(t)
+	default:
+		visited := make(map[reflect.Type]*openapi3.Schema)
+		return convertReflectTypeToSchemaWithVisited(t, visited)
+	}
+}
